@@ -48,7 +48,12 @@ pub fn c02(ctx: &Ctx) -> (CheckMeta, Outcome) {
                 tasks.push(Box::new(move || {
                     let mut out = Outcome::new();
                     let (w, pk) = kind_word(kind);
-                    let alphabet = base_alphabet(w, pk);
+                    let mut alphabet = base_alphabet(w, pk);
+                    // byte reads through the io::Read view share the buffer with everything else: what they
+                    // return is C12's subject, what they leave behind for the next fixed-width read is this one's
+                    for n in [1u16, 2, 8, 9, 17] {
+                        alphabet.push(ROp::IoRead(n));
+                    }
                     for img in images(e, nbits, seed, thorough) {
                         let model = RdModel { bits: Bits::from_bytes(&img.bytes, e), e, zx: backend == "memzx", limit: nbits + 160, tables_ok: diag };
                         let rd = make_reader(e, kind, backend, "", &img.bytes);
@@ -67,7 +72,7 @@ pub fn c02(ctx: &Ctx) -> (CheckMeta, Outcome) {
     let meta = CheckMeta {
         property: "C02".into(),
         level: "model_checking".into(),
-        rule: "breadth-first exploration to the fixpoint of the real reader object (exact Debug-string state identity) for every (endianness, reader kind, backend, image); alphabet read_bits 0..=64, peek 1..=max twice, skip 0..=2W+1,3W,3W+1, read_unary; every transition compared with the bit-vector model (value, advance, bit_pos); a failed peek on a strict backend must leave the reader intact (the state continues); plus one long history per zero-extended reader: 140 000 (thorough 3 000 000) 64-bit reads/skips past the end must all see zeros; plus the small-scope section: EVERY one of the 2^16 two-byte streams (two words of a u8 reader; thorough also one word of a u16 reader; strict and zero-extended memory backends, both endiannesses) explored to the fixpoint with read_bits {1,2,3,7,8,9,16}, peeks, skips, unary and table-free gamma/delta/omega/zeta3/Golomb3 reads (thorough: read_bits 0..=17, every peek width, every skip 0..=17, all code variants incl. tables where the look-ahead suffices) - no choice of data values is involved there; plus read_unary and skip_bits of about 2^32 and more bits over a synthetic sparse word source; distinct_nontrivial counts transitions that start in a state reached through at least one earlier operation".into(),
+        rule: "breadth-first exploration to the fixpoint of the real reader object (exact Debug-string state identity) for every (endianness, reader kind, backend, image); alphabet read_bits 0..=64, peek 1..=max twice, skip 0..=2W+1,3W,3W+1, read_unary, io::Read of 1,2,8,9,17 bytes; every transition compared with the bit-vector model (value, advance, bit_pos); a failed peek on a strict backend must leave the reader intact (the state continues); plus one long history per zero-extended reader: 140 000 (thorough 3 000 000) 64-bit reads/skips past the end must all see zeros; plus the small-scope section: EVERY one of the 2^16 two-byte streams (two words of a u8 reader; thorough also one word of a u16 reader; strict and zero-extended memory backends, both endiannesses) explored to the fixpoint with read_bits {1,2,3,7,8,9,16}, peeks, skips, unary and table-free gamma/delta/omega/zeta3/Golomb3 reads (thorough: read_bits 0..=17, every peek width, every skip 0..=17, all code variants incl. tables where the look-ahead suffices) - no choice of data values is involved there; plus read_unary and skip_bits of about 2^32 and more bits over a synthetic sparse word source; distinct_nontrivial counts transitions that start in a state reached through at least one earlier operation".into(),
         assumptions: vec!["reference model = canonical layout of C01 (harness/src/model.rs)".into(), "little-endian 64-bit host".into()],
     };
     (meta, out)
